@@ -280,6 +280,7 @@ def run_c02(fe, spec, packet, shape, asm_base, stats, ntrail=1, cks_registered=T
     trail = [z3.BitVec('trail#%d' % i, 8) for i in range(ntrail)]
     data = list(want) + trail
     ctl = PathCtl(asm, max_paths=64)
+    ctl.allow_concretise = True
 
     def run(c):
         o, r = fe.decode(c, packet, data, cks_registered)
@@ -287,6 +288,7 @@ def run_c02(fe, spec, packet, shape, asm_base, stats, ntrail=1, cks_registered=T
         re = fe.reencode(c, o, cks_registered)
         return o, r, lv, re
     results = list(ctl.explore(run))
+    concretised = ctl.concretised
     for res, pc in results:
         stats.obligations += 1
         A = asm + pc
@@ -329,4 +331,8 @@ def run_c02(fe, spec, packet, shape, asm_base, stats, ntrail=1, cks_registered=T
         if f:
             f.symptom = 'reencode:' + f.symptom
             findings.append(f)
+    if concretised and not findings:
+        # the decoder asked for a concrete length where it held message data; the values were pinned, so "no counterexample"
+        # covers only part of the value space
+        raise Unsupported('decoder takes a length from message data (values pinned by the solver): no counterexample on the pinned paths')
     return findings
